@@ -48,3 +48,28 @@ def c17_listed(case, signature, observed, params):
     if signature[0] != 'longer-with-option':
         return False
     return [signature[1], signature[2], signature[3]] in params['triples']
+
+
+def nonlocal_binding_removed(case, signature, observed, params):
+    """remove_asserts / remove_debug deleted the statement that held the only binding (a walrus in an assert, an assignment under
+    `if __debug__:`) of a name that a nested function declares nonlocal: the output no longer compiles."""
+    if signature[0] != 'output-not-compilable' or 'no binding for nonlocal' not in str(signature[1]):
+        return False
+    opts = case.get('opts') or {}
+    if not (opts.get('remove_asserts') or opts.get('remove_debug')):
+        return False
+    src = case['source']
+    if isinstance(src, bytes):
+        src = src.decode('utf-8', 'replace')
+    try:
+        tree = _parse(src)
+    except SyntaxError:
+        return False
+    if not any(isinstance(n, ast.Nonlocal) for n in ast.walk(tree)):
+        return False
+    from . import api
+    o = dict(opts, remove_asserts=False, remove_debug=False)
+    try:
+        return api.compiles(api.minify(src, o)) is None
+    except BaseException:
+        return False
